@@ -351,6 +351,11 @@ pub fn should_use_sparse_threshold(vector: &[f32], threshold: f32) -> bool {
 
 /// Heuristic: does this vector look like an ID list?
 fn looks_like_id_list(vector: &[f32], field_name: &str) -> bool {
+    // An id survives the u64 round trip only if it is a non-negative integer below 2^64.
+    let is_id = |v: f32| v >= 0.0 && v.fract() == 0.0 && v < 18_446_744_073_709_551_616.0;
+    if !vector.iter().all(|&v| is_id(v)) {
+        return false;
+    }
     if field_name == "ids" || field_name.ends_with("_ids") {
         return true;
     }
